@@ -151,4 +151,21 @@ def C06_full : Prop :=
     w.ctxCache = [] ∧ w.rendererCache = [] ∧ w.childAttrs = [] ∧ w.provideCache = [] ∧ w.provideRefs = [] ∧
       w.allRefIds = [] ∧ w.rcLeak = 0
 
+/-! ### the property at full strength is false on the current tree (known finding) -/
+
+def failingDef : CompDef :=
+  { name := "c1".toList, template := [.text "a".toList, .slot (.lit "s".toList) false true [] [.text "dflt".toList]], data := [] }
+def failingEnv : Env := { isolated := false, lib := [failingDef] }
+
+/-- **A failing render leaves a `component_context_cache` entry behind** (listed finding
+`error-leaves-registry-entries`): `{% component "c1" %}{% endcomponent %}` whose template holds a `required` slot
+raises `TemplateSyntaxError` — and the entry made for the instance is still there.  Kernel-evaluated. -/
+theorem not_C06_full : ¬ C06_full := by
+  intro h
+  have h1 := (h failingEnv 20 [.comp "c1".toList [] false false []] []).1
+  have h2 : (((renderNodes failingEnv 20 [.comp "c1".toList [] false false []] (rootCtx [])).run.run {}).2.ctxCache).isEmpty = false := by
+    decide +kernel
+  rw [h1] at h2
+  cases h2
+
 end Djc.Props.C06
